@@ -368,6 +368,25 @@ def check(ctx: Ctx) -> None:
                 if any(a in norm(c) for a in STATE):
                     ctx.violation("R5.7", f"DataSet.{mname}:reorders", DS, c, f"DataSet.{mname} reorders stored points ({norm(c)[:50]})")
 
+    # subtraction applies to every stored point alike (the mask decides visibility, not arithmetic)
+    sub = model.fi(DS, "DataSet.subtract_impedances")
+    ctx.instance("R5.7", "subtract_impedances is mask-independent whole-array arithmetic")
+    reads_mask = [n for n in walk_ordered(sub.node) if (isinstance(n, ast.Attribute) and n.attr == "_mask" and dotted(n.value) == "self") or
+                  (isinstance(n, ast.Call) and isinstance(n.func, ast.Attribute) and dotted(n.func.value) == "self" and n.func.attr.startswith("get_")
+                   and any(k.arg == "masked" for k in n.keywords))]
+    asg = [n for n in walk_ordered(sub.node) if isinstance(n, (ast.Assign, ast.AugAssign)) and any(
+        norm(t).startswith("self._impedances") for t in (n.targets if isinstance(n, ast.Assign) else [n.target]))]
+    whole = bool(asg) and all(isinstance(n, ast.Assign) and norm(n.targets[0]) == "self._impedances" and isinstance(n.value, ast.BinOp) and isinstance(n.value.op, ast.Sub)
+                              and norm(n.value.left) == "self._impedances" and norm(n.value.right) == "impedances" for n in asg)
+    if reads_mask:
+        ctx.violation("R5.7", "subtract_impedances:mask-dependent", DS, reads_mask[0],
+                      "subtract_impedances consults the mask: masked and unmasked points can be treated differently, so a point's impedance no longer follows the same history as its neighbours")
+    elif not whole:
+        ctx.violation("R5.7", "subtract_impedances:not-whole-array", DS, sub.node,
+                      "subtract_impedances must rebind self._impedances = self._impedances - impedances (a new array for all points); in-place or index-restricted updates alter arrays handed out earlier or only some points")
+    else:
+        ctx.ok()
+
     # ---------------- R5.8 ---------------------------------------------------------------
     gm = model.fi(DS, "DataSet.get_mask")
     ctx.instance("R5.8", "get_mask returns a copy")
@@ -379,6 +398,57 @@ def check(ctx: Ctx) -> None:
     gi = model.fi(DS, "DataSet.get_impedances")
     if any(isinstance(n, ast.Return) and norm(n.value) == "self._impedances" for n in walk_ordered(gi.node)):
         ctx.note("get_impedances(masked=None) returns the internal array itself while get_frequencies(None) and get_mask copy (sibling inconsistency; not a violation of the stated property)")
+    # values obtained from a getter that hands out internal state must not be modified in place
+    gi_alias = any(isinstance(n, ast.Return) and norm(n.value) == "self._impedances" for n in walk_ordered(gi.node))
+    if gi_alias:
+        n_alias = 0
+        for q, fi in sorted(model.funcs.items()):
+            if not (fi.module == DS or fi.module.startswith("pyimpspec.analysis") or fi.module.startswith("pyimpspec.cli") or fi.module == "pyimpspec.circuit"):
+                continue
+            srcs = [c for c in calls_in(fi.node, into_functions=True) if isinstance(c.func, ast.Attribute) and c.func.attr == "get_impedances"
+                    and (any(k.arg == "masked" and isinstance(k.value, ast.Constant) and k.value.value is None for k in c.keywords)
+                         or (c.args and isinstance(c.args[0], ast.Constant) and c.args[0].value is None))]
+            lam = [c for n in walk_ordered(fi.node) if isinstance(n, ast.Lambda) for c in calls_in(n.body) if isinstance(c.func, ast.Attribute) and c.func.attr == "get_impedances"
+                   and any(k.arg == "masked" and isinstance(k.value, ast.Constant) and k.value.value is None for k in c.keywords)]
+            srcs += lam
+            if not srcs:
+                continue
+            tainted = set()
+            for _ in range(3):
+                for n in walk_ordered(fi.node):
+                    if isinstance(n, (ast.Assign, ast.AnnAssign)) and n.value is not None:
+                        t = n.targets[0] if isinstance(n, ast.Assign) else n.target
+                        v = n.value
+                        hit = any(x in srcs for x in ast.walk(v)) or any(isinstance(x, ast.Name) and x.id in tainted for x in ast.walk(v))
+                        # arithmetic creates a new array; copies too
+                        fresh = isinstance(v, ast.BinOp) or (isinstance(v, ast.Call) and (dotted(v.func) in ("mean", "array", "copy", "deepcopy", "abs", "angle") or
+                                                                                          (isinstance(v.func, ast.Attribute) and v.func.attr in ("copy", "astype"))))
+                        if hit and not fresh and isinstance(t, ast.Name):
+                            tainted.add(t.id)
+                    if isinstance(n, ast.For) and any(isinstance(x, ast.Name) and x.id in tainted for x in ast.walk(n.iter)):
+                        for x in ast.walk(n.target):
+                            if isinstance(x, ast.Name):
+                                tainted.add(x.id)
+            for n in walk_ordered(fi.node):
+                bad = None
+                if isinstance(n, ast.AugAssign):
+                    base = n.target.value if isinstance(n.target, ast.Subscript) else n.target
+                    if isinstance(base, ast.Name) and base.id in tainted:
+                        bad = n
+                elif isinstance(n, ast.Assign) and isinstance(n.targets[0], ast.Subscript) and isinstance(n.targets[0].value, ast.Name) and n.targets[0].value.id in tainted:
+                    bad = n
+                elif isinstance(n, ast.Call) and isinstance(n.func, ast.Attribute) and n.func.attr in ("sort", "fill", "resize", "put", "itemset") \
+                        and isinstance(n.func.value, ast.Name) and n.func.value.id in tainted:
+                    bad = n
+                if bad is not None:
+                    n_alias += 1
+                    ctx.instance("R5.8", f"{fi.qual}: in-place update of an array obtained from get_impedances(masked=None)")
+                    ctx.violation("R5.8", f"{fi.qual}:inplace-on-internal-array", fi.module, bad,
+                                  f"{fi.qual} modifies in place ({norm(bad)[:50]}) an array that get_impedances(masked=None) hands out without copying: "
+                                  f"the stored impedances of that data set change behind its back")
+        ctx.instance("R5.8", f"in-place updates of arrays aliasing DataSet._impedances: {n_alias}")
+        if n_alias == 0:
+            ctx.ok()
     ctx.sample({"to_dict_keys": out_keys, "parse_removed": sorted(removed), "parse_added": sorted(added), "init_params": params})
 
 
